@@ -139,9 +139,17 @@ def waits(seq, enc):
         return False
 
 
-def tree(enc, fanout, max_depth=None):
+class TreeTooLarge(Exception):
+    """the decoder keeps asking for more input far beyond the expected tree: `node` is a waiting node seen last"""
+    def __init__(self, enc, count, node):
+        Exception.__init__(self, "decision tree %s exceeds %d nodes" % (enc, count))
+        self.enc, self.count, self.node = enc, count, node
+
+
+def tree(enc, fanout, max_depth=None, max_nodes=400000):
     """every node reached through waiting nodes; fanout(parent) -> next bytes to try below `parent`.
-    -> (list of nodes as tuples, number of waiting nodes)"""
+    -> (list of nodes as tuples, number of waiting nodes); raises TreeTooLarge beyond max_nodes (a decoder that
+    waits where it should not makes the tree explode: that is reported, never walked to the end)"""
     max_depth = max_depth or ev.MAX_KEYPRESS_SIZE + 1
     nodes, frontier, nwait = [], [()], 0
     while frontier:
@@ -155,6 +163,8 @@ def tree(enc, fanout, max_depth=None):
                 if waits(n, enc):
                     nwait += 1
                     nxt.append(n)
+            if len(nodes) > max_nodes:
+                raise TreeTooLarge(enc, max_nodes, (nxt or frontier)[-1])
         frontier = nxt
     return nodes, nwait
 
